@@ -436,7 +436,12 @@ package expr
 //@ func (e *FieldExpression) unwrapOneof(obj) (res)
 //@   requires obj != nil && validItem(obj)
 //@   let name = string(pbName(pbDesc(pbReflect(obj))))
+//@   let m = pbReflect(obj)
+//@   let os = pbOneofs(pbDesc(m))
+//@   let fld = pbWhichOneof(m, pbOneofsGet(os, 0))
 //@   ensures !strsuffix("ValueX", name) && name != "ContainedResource" ==> res == obj
+// a choice wrapper (any "...ValueX" message) with its one oneof set yields the chosen element
+//@   ensures (strsuffix("ValueX", name) || name == "ContainedResource") && pbOneofsLen(os) == 1 && pbOneofsGet(os, 0) != nil && fld != nil ==> res == pbIface(pbMsg(pbGet(m, fld)))
 //@   ensures res != nil
 //@   assigns nothing
 // the google/fhir helper fields of the date/time primitives are not FHIR elements; every other
